@@ -7,7 +7,7 @@ From BV Require Import Base.Prelude Model.Block Model.ForkDB Model.Forkable Mode
   Model.CursorResolver Model.Joining
   Spec.Consumer Spec.Universe Check.Fk_Check Check.Burst_Check Check.C07_Check
   Spec.C09_Spec Spec.C05_Spec Spec.C06_Spec Spec.C07_Spec Spec.C13_Spec Spec.C07_Compose_Spec Spec.C07_Shapes_Spec Spec.C07_More_Spec
-  Spec.C07_Final_Spec
+  Spec.C07_Final_Spec Spec.C13_More_Spec
   Spec.C01_Spec Spec.C01_Moving_Spec Spec.C01_Roots_Spec
   Proofs.C06_Lists Proofs.C06_Proofs Proofs.C13_Proofs
   Proofs.C09_Store Proofs.C09_Segment Proofs.C09_Proofs Proofs.C05_Fast Proofs.C05_Forked
@@ -17,7 +17,7 @@ From BV Require Import Base.Prelude Model.Block Model.ForkDB Model.Forkable Mode
   Proofs.C07_ComposeStack Proofs.C07_ComposeHub Proofs.C07_ComposeRun Proofs.C07_Compose Proofs.C07_ComposeCheck
   Proofs.C07_ComposeCursor Proofs.C07_ComposeCursorLive Proofs.C07_ComposeTarget
   Proofs.C07_Raw Proofs.C07_Shapes Proofs.C07_Filters Proofs.C07_ChainFacts Proofs.C07_Delivery Proofs.C07_FiltersTarget
-  Proofs.C07_FinalHub Proofs.C07_Final Proofs.C07_FinalMem Proofs.C07_FinalCursor.
+  Proofs.C07_FinalHub Proofs.C07_Final Proofs.C07_FinalMem Proofs.C07_FinalCursor Proofs.C07_FiltersNum.
 Local Open Scope N_scope.
 
 (* ------------------------------------------------------------------ the blocks the hub finalises, empty memory *)
@@ -665,6 +665,110 @@ Section FinalTgt.
           rewrite <- ED. symmetry. exact (dlv_all c canon start merged_end Hbundle Hbound Hn).
         * rewrite (pass_delivered c _ Hp Hns), (undup_blocks c Hfilter _ None), Erec. reflexivity.
   Qed.
+  (* ---------------------------------------------------------------- with a stop block: the run that ends with stop-block-reached *)
+
+  Lemma tgt_final_stop bS :
+    In bS canon -> bnum bS = j_stop c -> rn (cu_blk cu) <= j_stop c -> snd res = JStop ->
+    exists pre e, fst res = pre ++ [e] /\ eblk e = bS /\
+      from_num start (map eblk (fst res)) = seg_num start (j_stop c) canon.
+  Proof.
+    intros HbS HnS Hsc Hstop.
+    pose proof (c07_run_shapes_proof c w ps merged_end merged forked) as Hsh. cbv zeta in Hsh.
+    destruct (tgt_files c w ps merged_end canon forked cu B start Hchain Hstart Hmode Hcur HBc HB) as (D1 & D2 & fend & ED & Erf & Hfend & Hall2).
+    fold merged stopf D in ED, Erf, Hall2. rewrite Erf in Hsh. cbn [fst snd] in Hsh. fold res in Hsh. rewrite Hstart in Hsh.
+    assert (Hseen : forall X, seen c X = undup c None X) by (intros X; rewrite (seen_final c X Hfilter), ft_mem; reflexivity).
+    assert (Hle0 : run_rejected c w = false -> j_stop c <> 0 -> start <= j_stop c) by (intros Hrej; exact (not_rejected_start c start w Hstart Hrej)).
+    assert (Hraw : forall X X' (P : Prop), run_rejected c w = false -> (exists Xt, X' = X ++ Xt) -> raw_out c (undup c None X) res P ->
+              nshape (map eblk (filter irr_ev X')) True ->
+              exists pre e, fst res = pre ++ [e] /\ eblk e = bS /\ from_num start (map eblk (fst res)) = seg_num start (j_stop c) canon).
+    { intros X X' P Hrej HX' Hro (Bd & EBd & _ & Hcompl).
+      unfold raw_out in Hro. rewrite Hstop in Hro. destruct Hro as (Hs & Hf).
+      destruct (Hcompl I) as (hi & _ & Hfrom).
+      apply (final_cut c canon start None X X' Bd hi (fst res) bS Hfilter HX' EBd); try assumption.
+      - rewrite <- EBd. apply records_sorted.
+      - exact (Hle0 Hrej). }
+    assert (Hweak : forall raw (P : Prop), P -> nshape raw P -> nshape raw True).
+    { intros raw P HP (Bd & E & Hl & Hfn). exists Bd. split; [exact E|]. split; [exact Hl | intros _; exact (Hfn HP)]. }
+    assert (Hdone : forall w0 k, w_rest (world_after c (k + length (w_rest (world_after c k w0))) w0) = []).
+    { intros w0 k. rewrite <- world_after_add. apply length_zero_iff_nil. rewrite world_after_rest. lia. }
+    assert (Hpadd : forall a b w0, pushed c (a + b) w0 = pushed c a w0 ++ pushed c b (world_after c a w0)).
+    { intros a b w0. unfold pushed, world_after. rewrite push_n_add. reflexivity. }
+    destruct (lnk_of_chain_ok D D_ok') as [x0 HlD].
+    destruct Hsh as [[_ Hr]|[Hrej [(burst & k & Hlt & Hro)|[[_ Hr]|[Hlt [(pre & e & rest0 & m & lowest & burst & k & Ef & Hns & Hj & Hro)|Hfo]]]]]].
+    - rewrite Hr in Hstop. discriminate.
+    - unfold live_try in Hlt. rewrite Hmode, Hcur in Hlt. cbn [N.eqb Pos.eqb] in Hlt.
+      destruct (h_ready (w_hub w)) eqn:Hrd; cbn [negb] in Hlt; [|discriminate].
+      rewrite Hseen in Hro. set (r := length (w_rest (world_after c k w))).
+      apply (Hraw (burst ++ pushed c k w) (burst ++ pushed c (k + r) w) (w_rest (world_after c k w) = []) Hrej); [| exact Hro|].
+      + exists (pushed c r (world_after c k w)). rewrite Hpadd, app_assoc. reflexivity.
+      + exact (Hweak _ _ (Hdone w k) (ft_live burst (k + r) Hrd Hlt)).
+    - rewrite Hr in Hstop. discriminate.
+    - apply map_eq_app in Ef as (Dpre & D3 & ED1 & Epre & E3). apply map_eq_cons in E3 as (bn & D'' & ED3 & Ebn & _).
+      subst pre e D3. rewrite Hseen in Hro.
+      assert (EDD : D = (Dpre ++ bn :: D'') ++ D2) by (rewrite ED, ED1; reflexivity).
+      set (wm := world_after c m w) in *. set (r := length (w_rest (world_after c k wm))).
+      apply (Hraw (map fev Dpre ++ burst ++ pushed c k wm) (map fev Dpre ++ burst ++ pushed c (k + r) wm) (w_rest (world_after c k wm) = []) Hrej); [| exact Hro|].
+      + exists (pushed c r (world_after c k wm)). rewrite Hpadd, <- !app_assoc. reflexivity.
+      + apply (Hweak _ _ (Hdone wm k)). apply (ft_join m Dpre bn D'' lowest burst (k + r)).
+        * exists x0. rewrite EDD in HlD. eapply linked_prefix. exact HlD.
+        * intros b Hb. rewrite EDD. apply in_or_app. left. exact Hb.
+        * intros z r0 Ez. apply (D_bot' z (r0 ++ D2)). rewrite EDD, Ez. reflexivity.
+        * exact Hj.
+    - (* files only *)
+      rewrite Hseen in Hfo.
+      assert (HDU : Forall (fun y => In y U) D).
+      { apply Forall_forall. intros y Hy. apply HmU. apply ft_D_in. exact Hy. }
+      assert (HSD : StronglySorted blt D) by exact (lnk_sorted U U_id U_uniq U_up D x0 HlD HDU).
+      assert (ErecD : records None (map eblk (filter irr_ev (map fev D))) = D).
+      { rewrite (C06_Lists.filter_all _ _ (map fev D)), map_eblk_fev; [apply records_none; exact HSD|].
+        apply Forall_forall. intros e He. apply in_map_iff in He as (b & <- & _). reflexivity. }
+      assert (HD1U : Forall (fun y => In y U) D1) by (rewrite ED in HDU; apply Forall_app in HDU; exact (proj1 HDU)).
+      assert (HlD1 : lnk x0 D1) by (rewrite ED in HlD; eapply linked_prefix; exact HlD).
+      assert (Erec1 : records None (map eblk (filter irr_ev (map fev D1))) = D1).
+      { rewrite (C06_Lists.filter_all _ _ (map fev D1)), map_eblk_fev; [apply records_none; exact (lnk_sorted U U_id U_uniq U_up D1 x0 HlD1 HD1U)|].
+        apply Forall_forall. intros e He. apply in_map_iff in He as (b & <- & _). reflexivity. }
+      assert (EYb : map eblk (undup c None (map fev D1)) = D1) by (rewrite (undup_blocks c Hfilter _ None); exact Erec1).
+      destruct (undup_sorted c (map fev D1) None) as (Hp & _ & _).
+      set (lim := N.min ((stopf / j_bundle c + 1) * j_bundle c) merged_end).
+      assert (HDin : forall b, In b D <-> In b merged /\ start <= bnum b < (stopf / j_bundle c + 1) * j_bundle c) by (intros b; apply (dlv_in c canon start merged_end b)).
+      destruct Hfo as [[Hns Hr]|[Hs Hr]]; fold res in Hr.
+      + (* the marker: impossible, block S is among the blocks handed over *)
+        exfalso. rewrite Hr in Hstop. cbn [snd] in Hstop.
+        assert (Ef0 : fend = fend0) by (destruct Hfend as [E|E]; [exact E | rewrite E in Hstop; discriminate]).
+        rewrite Ef0 in Hstop.
+        assert (E0 : j_stop c <> 0) by (intros E; unfold fend0 in Hstop; rewrite E in Hstop; discriminate).
+        assert (Hble : (j_stop c / j_bundle c + 1) * j_bundle c <= merged_end).
+        { unfold fend0 in Hstop. apply N.leb_le. case_eq ((j_stop c / j_bundle c + 1) * j_bundle c <=? merged_end); [reflexivity|].
+          intros E. rewrite E, andb_false_r in Hstop. discriminate. }
+        assert (Estopf : stopf = j_stop c) by (unfold stopf; apply N.eqb_neq in E0; rewrite E0; reflexivity).
+        pose proof (N.mul_succ_div_gt (j_stop c) (j_bundle c)) as Hdiv. rewrite <- N.add_1_r in Hdiv.
+        pose proof (Hle0 Hrej E0) as Hle.
+        destruct (bref_eq _ _ HB) as [_ EBn].
+        assert (HD2 : D2 = []).
+        { apply Hall2; [|exact Ef0]. destruct (N.lt_ge_cases (rn (cu_blk cu)) start) as [Hl|Hg]; [left; exact Hl|]. right.
+          apply HDin. rewrite Estopf. split; [unfold merged; apply filter_In; split; [exact HBc | apply N.ltb_lt; nia] | nia]. }
+        assert (HbSD : In bS D1).
+        { rewrite HD2, app_nil_r in ED. rewrite <- ED. apply HDin. rewrite Estopf.
+          split; [unfold merged; apply filter_In; split; [exact HbS | apply N.ltb_lt; nia] | nia]. }
+        rewrite <- EYb in HbSD. apply in_map_iff in HbSD as (x & Ex & Hx).
+        pose proof (upto_stop_nostop c _ Hns) as Hall. rewrite Forall_forall in Hall, Hp.
+        pose proof (stops_false_pass c x (Hall _ Hx) (Hp x Hx) E0) as Hlt'. unfold enum in Hlt'. rewrite Ex in Hlt'. lia.
+      + assert (Hf : fst res = fst (upto_stop c (undup c None (map fev D1)))) by (rewrite Hr; reflexivity).
+        destruct (upto_stop_split c _ Hs) as (Y1 & e & Y2 & EYs & _ & _ & _).
+        assert (HeD : In (eblk e) D).
+        { rewrite ED. apply in_or_app. left. rewrite <- EYb, EYs. apply in_map. apply in_or_app. right. left. reflexivity. }
+        assert (Hlim : bnum (eblk e) < lim).
+        { apply HDin in HeD as (Hm & _ & H2). unfold merged in Hm. apply filter_In in Hm as [_ Hm]. apply N.ltb_lt in Hm. unfold lim. lia. }
+        apply (final_cut c canon start None (map fev D1) (map fev D) D (lim - 1) (fst res) bS Hfilter); try assumption.
+        * exists (map fev D2). rewrite ED, map_app. reflexivity.
+        * assert (EDfrom : from_num start D = D).
+          { unfold from_num. apply C06_Lists.filter_all. apply Forall_forall. intros b Hb. apply HDin in Hb. apply N.leb_le. lia. }
+          rewrite EDfrom. unfold D at 1, file_delivery, merged, seg_num. rewrite filter_filter2. apply filter_ext_in. intros b _.
+          fold stopf. unfold lim in *.
+          destruct (N.ltb_spec (bnum b) merged_end), (N.leb_spec start (bnum b)), (N.ltb_spec (bnum b) ((stopf / j_bundle c + 1) * j_bundle c)),
+            (N.leb_spec (bnum b) (N.min ((stopf / j_bundle c + 1) * j_bundle c) merged_end - 1)); cbn [andb]; try reflexivity; lia.
+        * exact (Hle0 Hrej).
+  Qed.
 End FinalTgt.
 
 Lemma c07_seamless_target_final_proof : C07_seamless_target_final_full.
@@ -678,4 +782,18 @@ Proof.
   { split; [|exact Hrest]. rewrite Hhub. apply (hub_ok_run U (j_first c) (j_kept c) Hwfb Hlok l Hl). }
   exact (tgt_final U c w ps merged_end canon forked cu B start Hid Huniq Hup Hdecl Hchain Hincl Hstartblk eq_refl HW Htip Hmode Hcur Hfilter
            Hbundle HBc HB Hfc Hbound).
+Qed.
+
+(* the stop clause for final blocks only, target-cursor mode (Spec/C13_More_Spec.v) *)
+Lemma c13_stop_final_target_proof : C13_stop_final_target.
+Proof.
+  intros U c w ps merged_end canon forked cu B Hwfb Hlok [[l [Hl Hhub]] Hrest] Hchain Hincl merged Htip
+         Hmode Hcur Hfilter Hbundle Hbound HBc HB Hfc res start Hstartblk bS HbS HnS Hsc Hstop.
+  assert (Hscope : disc_scope2_b U = true) by (unfold disc_scope2_b; rewrite Hwfb, Hlok; reflexivity).
+  pose proof (bridge_id U Hwfb) as Hid. pose proof (bridge_uniq U Hwfb) as Huniq. pose proof (bridge_up U Hwfb) as Hup.
+  pose proof (bridge2_decl_none U Hscope) as Hdecl.
+  assert (HW : WOK U c w).
+  { split; [|exact Hrest]. rewrite Hhub. apply (hub_ok_run U (j_first c) (j_kept c) Hwfb Hlok l Hl). }
+  exact (tgt_final_stop U c w ps merged_end canon forked cu B start Hid Huniq Hup Hdecl Hchain Hincl Hstartblk eq_refl HW Htip Hmode Hcur Hfilter
+           Hbundle HBc HB Hfc bS HbS HnS Hsc Hstop).
 Qed.
